@@ -394,13 +394,16 @@ def run(ctx):
     missing, stale = R.check_complete()
     if missing or stale:
         raise core.MachineryError("registry out of date: missing rows %s, stale rows %s" % (missing, stale))
-    tag = "" if ctx.quick else "_thorough"
-    mcs = [(lambda m=m: ctx.mc("MC_Equivariance.tla", "MC_Equivariance_%s%s.cfg" % (m, tag),
-                               timeout=3000, workers=4))
-           for m in ("und", "dir", "wund", "wdir", "sign")]
+    if ctx.quick:
+        cfgs = ["MC_Equivariance_%s.cfg" % m for m in ("und", "dir", "wund", "wdir", "sign")]
+    else:
+        cfgs = (["MC_Equivariance_%s_thorough.cfg" % m for m in ("und", "wdir", "sign")] +
+                ["MC_Equivariance_%s_thorough_s%d.cfg" % (m, k) for m in ("dir", "wund") for k in (1, 2, 3, 4)])
+    ctx.parallel([(lambda c=c: ctx.mc("MC_Equivariance.tla", c, timeout=3000, workers=3)) for c in cfgs],
+                 width=6)
     jobs = build_jobs(ctx)
     recs = pool.run_jobs(__name__, jobs)
-    verdicts = validate_parallel(ctx, recs, also=mcs)      # mc runs and trace validation side by side
+    verdicts = validate_parallel(ctx, recs)
     bad = [(j["fn"], v[0]) for j, v in zip(jobs, verdicts) if v[0] in BAD]
     if bad:
         raise core.MachineryError("harness produced records the spec cannot read: %s" % bad[:5])
